@@ -172,7 +172,8 @@ func c44RepoCase(h *H, sub string, heavyDup bool) {
 		}
 	}
 	phase1From := len(rec.Events)
-	h.Rec("cfg", Itoa(packSize), Itoa(packerCount), Itoa(nthreads), B(reopen), Itoa(int(version)))
+	syncMode := heavyDup && h.Intn(4) == 0 // plain SaveBlob calls one after the other: the schedule is the call order
+	h.Rec("cfg", Itoa(packSize), Itoa(packerCount), Itoa(nthreads), B(reopen), Itoa(int(version)), B(syncMode))
 	{
 		toks := make([]string, 0, len(pre))
 		for _, i := range pre {
@@ -182,17 +183,28 @@ func c44RepoCase(h *H, sub string, heavyDup bool) {
 	}
 	// the observed session
 	calls := make([]*c44Call, ncalls)
+	withDup := h.Bool() // half of the cases contain no storeDuplicate call at all
 	for i := range calls {
 		c := h.Intn(ncont)
 		if i < ncont && !heavyDup {
 			c = i
 		}
-		calls[i] = &c44Call{c: c, dup: h.Intn(12) == 0}
+		calls[i] = &c44Call{c: c, dup: withDup && h.Intn(12) == 0}
 	}
 	var mu sync.Mutex
 	var sessErr error
 	panicked, pmsg := Protect(func() {
 		sessErr = repo.WithBlobUploader(ctx, func(ctx context.Context, up restic.BlobSaverWithAsync) error {
+			if syncMode {
+				for _, c := range calls {
+					newID, known, _, err := up.SaveBlob(ctx, conts[c.c].t, conts[c.c].data, restic.ID{}, c.dup)
+					c.known, c.err, c.done = known, err, true
+					if err == nil && newID != conts[c.c].id {
+						c.err = fmt.Errorf("wrong id returned")
+					}
+				}
+				return nil
+			}
 			var wg sync.WaitGroup   // submitters
 			var cbs sync.WaitGroup // callbacks
 			for t := 0; t < nthreads; t++ {
